@@ -15,7 +15,7 @@ EXPECTED_PROBES = ["push-while-waiter-blocked", "second-push-same-quantum-while-
 
 
 def worker(seed, widx, nworkers, plan, scratch):
-    return qscommon.qs_worker(PROP, seed, widx, nworkers, plan, scratch)
+    return qscommon.qs_worker(PROP, seed, widx, nworkers, plan, scratch, allow_restart=True)
 
 
 def evidence(stats, samples, plan, tier, seed, wall, nviol, known_hits, nworkers):
